@@ -452,6 +452,14 @@ impl ContinuityStore {
         let index = load_index(&index_path(&data_dir)).unwrap_or_default();
         let (sender, _receiver) = broadcast::channel(EVENT_CHANNEL_CAPACITY);
         let stream_cache = ContinuityStreamCache::new(&data_dir);
+        // Continuity appends are serialized, so after a crash only the last continuity frame of
+        // the log can be missing from the caches.
+        stream_cache.reconcile_after_restart(
+            event_log
+                .last_frame_of_kind(StreamKind::Continuity)
+                .ok()
+                .flatten(),
+        );
         Ok(Self {
             data_dir,
             workspace_root,
